@@ -172,11 +172,16 @@ func (d *decoder) decode(v interface{}) error {
 						var err error
 						if tlv8 == "-" {
 							// unnamed slices are inline encoded
-							if !d.hasValuesFor(valueType.Elem()) {
+							// the values of one element are in the same segment
+							seg, ok := d.nextSegmentFor(valueType.Elem())
+							if !ok {
 								// step out of loop
 								break
 							}
+							limited, current := d.r.limited, d.r.seg
+							d.r.limited, d.r.seg = true, seg
 							err = d.decode(v)
+							d.r.limited, d.r.seg = limited, current
 						} else {
 							b, e := d.r.readBytes(tag)
 							if e == io.EOF {
@@ -239,28 +244,34 @@ func (d *decoder) decode(v interface{}) error {
 	return nil
 }
 
-// hasValuesFor returns true when a value for any field of the struct type t is left to read.
-// An element of an inline encoded slice may consist of zero values only, therefore
-// the end of the slice cannot be detected by looking at the decoded element.
-func (d *decoder) hasValuesFor(t reflect.Type) bool {
+// nextSegmentFor returns the first segment which holds a value for any field of the struct type t.
+func (d *decoder) nextSegmentFor(t reflect.Type) (seg int, found bool) {
 	if t.Kind() == reflect.Ptr {
 		t = t.Elem()
 	}
 	if t.Kind() != reflect.Struct {
-		return false
+		return 0, false
 	}
 	for i := 0; i < t.NumField(); i++ {
 		if tlv8, ok := t.Field(i).Tag.Lookup("tlv8"); ok {
+			var s int
+			var ok bool
 			if tlv8 == "-" {
-				if ft := t.Field(i).Type; ft.Kind() == reflect.Slice && d.hasValuesFor(ft.Elem()) {
-					return true
+				if ft := t.Field(i).Type; ft.Kind() == reflect.Slice {
+					s, ok = d.nextSegmentFor(ft.Elem())
 				}
-			} else if d.r.len(uint8(to.Uint64(strings.Split(tlv8, ",")[0]))) > 0 {
-				return true
+			} else {
+				s, ok = d.r.segment(uint8(to.Uint64(strings.Split(tlv8, ",")[0])))
+			}
+			if ok && d.r.limited && s < d.r.seg {
+				ok = false
+			}
+			if ok && (!found || s < seg) {
+				seg, found = s, true
 			}
 		}
 	}
-	return false
+	return seg, found
 }
 
 func newValueOf(t reflect.Type) reflect.Value {
